@@ -5,7 +5,7 @@
     without a Go toolchain);
 (b) every enumerated family (C06-C10, C17-C19 templates) and seeded random type-directed programs: outcome of
     GoSem(emitted Go) must equal outcome of GomlSem(source) — stdout bytes and normal/failed termination."""
-import os
+import glob, os
 from common import *
 import corpus, engine, famcheck, families, gopipe, gohoist
 
@@ -23,19 +23,42 @@ def normalise_recording(b):
 
 
 def calibrate():
-    """GoSem on the *recorded* .go files must reproduce the recorded outputs; otherwise my Go semantics is wrong (exit 2)."""
+    """GoSem on the *recorded* .go files must reproduce the recorded outputs; otherwise my Go semantics is wrong (exit 2).
+    The pairs (Go text, output of real Go) are facts about Go and live in /verif/calibration (see the README there); the pairs
+    the repository holds now are run as well, and those that no longer belong together are only reported."""
     recs = []
+    pinned = {}
+    for d in sorted(glob.glob(os.path.join(VERIF, "calibration", "*"))):
+        n = os.path.basename(d)
+        if not os.path.isdir(d) or n in RECORDED_GO_REJECT:
+            continue
+        go, out = open(os.path.join(d, "main.go")).read(), open(os.path.join(d, "main.out"), "rb").read()
+        pinned[n] = (go, out)
+        rec, err = gopipe.go_record(n, go, out)
+        if err:
+            raise ToolError(f"calibration: recorded {n} does not parse: {err}")
+        rec["ast"] = gohoist.hoist(rec["ast"])
+        recs.append(rec)
+    extra = []
     for c in corpus.single_file_cases():
         if not c["go"] or not c["out"] or c["name"] in RECORDED_GO_REJECT:
             continue
-        rec, err = gopipe.go_record(c["name"], open(c["go"]).read(), open(c["out"], "rb").read())
+        go, out = open(c["go"]).read(), open(c["out"], "rb").read()
+        if pinned.get(c["name"]) == (go, out):
+            continue
+        rec, err = gopipe.go_record("repo:" + c["name"], go, out)
         if err:
-            raise ToolError(f"calibration: recorded {c['name']} does not parse: {err}")
+            extra.append((c["name"], "does not parse: " + err))
+            continue
         rec["ast"] = gohoist.hoist(rec["ast"])
         recs.append(rec)
     res, st = gopipe.run_sharded("GoSem", "GoSem.cfg", recs, extra_env={"MAXSTEPS": 60000}, name="c01-cal")
     agree = 0
     for n, r in res.items():
+        if n.startswith("repo:"):
+            if not ((n[5:] in RECORDED_FAILURE and r["status"] == "failed") or (r["status"] == "ok" and r["agree"]) or r["status"] in ("unsupported", "inconclusive")):
+                extra.append((n[5:], "the repository's current main.gom.go does not reproduce its main.gom.out"))
+            continue
         if n in RECORDED_FAILURE:
             if r["status"] != "failed":
                 raise ToolError(f"calibration: {n} should fail at run time, GoSem says {r['status']}")
@@ -46,12 +69,12 @@ def calibrate():
             agree += 1
         elif r["status"] == "failed":
             raise ToolError(f"calibration: GoSem fails on recorded {n}: {r['why']}")
-    return agree, len(recs), st
+    return agree, len(pinned), st, extra
 
 
 def run(tier, rep):
     build_harness()
-    agree, ncal, st0 = calibrate()
+    agree, ncal, st0, cal_extra = calibrate()
     # ---- (a) fresh Go of the corpus vs recorded outputs
     cases = []
     for c in corpus.single_file_cases() + corpus.package_cases():
@@ -81,7 +104,8 @@ def run(tier, rep):
         else:
             ok += 1
     rep.coverage.update({"corpus_programs": len(cases), "corpus_agree": ok, "corpus_unsupported": unsup,
-                         "calibration_agree": agree, "calibration_files": ncal})
+                         "calibration_agree": agree, "calibration_files": ncal,
+                         "repository_recordings_changed_and_not_reproduced": [f"{n}: {w}" for n, w in cal_extra]})
     if ok < 60:
         raise ToolError(f"vacuity: only {ok} corpus programs reproduced")
     # ---- (b) families + random
